@@ -26,7 +26,7 @@ func reset() {
 	libdefaults.All()
 }
 
-// limit mode: 0 default, 1 disabled (0), 2 one, 3 default+1
+// limit mode: 0 default, 1 disabled (0), 2 one, 3 default+1, 4 eight
 func limitFor(pkg string, mode int) int {
 	switch mode {
 	case 1:
@@ -35,6 +35,8 @@ func limitFor(pkg string, mode int) int {
 		return 1
 	case 3:
 		return defaults[pkg] + 1
+	case 4:
+		return 8
 	}
 	return defaults[pkg]
 }
@@ -252,6 +254,20 @@ func probePair(p pairArg) (string, string) {
 		}
 		if over(b) && err == nil {
 			return "over_limit_not_rejected_as_too_long", fmt.Sprintf("%s: second text of %d bytes with MaxInputLength=%d was accepted", name, len(b), lim)
+		}
+		if over(b) && !over(a) && !is { // when the first text is fine for this helper the only thing wrong is the second text's length
+			var e1 error
+			switch {
+			case strings.HasSuffix(name, "Version"):
+				_, e1 = sem.ParseVersion(a)
+			case strings.HasSuffix(name, "Tag"):
+				_, e1 = sem.ParseTag(a)
+			default:
+				_, e1 = sem.Parse(a)
+			}
+			if e1 == nil {
+				return "over_limit_not_rejected_as_too_long", fmt.Sprintf("%s: second text of %d bytes with MaxInputLength=%d (first text %q valid) gave %v, which is not sem.ErrInputTooLong", name, len(b), lim, a, err)
+			}
 		}
 	}
 	return "", ""
@@ -537,6 +553,31 @@ func main() {
 					}
 				}
 				w.Outcome("long runs")
+				reset()
+			})
+		})
+		r.Phase("two-input helpers: one operand valid and within the limit, the other valid-shaped but longer than the limit (either side), limits 8 and the default: the answer is the input-too-long error", "complete for the listed pairs", func() {
+			r.Serial(func(w *mc.W) {
+				for _, mode := range []int{4, 0} {
+					setLimits(mode)
+					lim := limitFor("sem", mode)
+					if lim == 0 {
+						continue
+					}
+					for _, short := range []string{"v1.0.0", "1.0.0", "v1.2.3-a", "0.0.0+b"} {
+						if len(short) > lim {
+							continue
+						}
+						for _, long := range []string{"v1.0.0-" + strings.Repeat("a", lim), "1.0.0+" + strings.Repeat("0", lim), strings.Repeat("9", lim+1), "v" + strings.Repeat("1.", lim)} {
+							w.Point()
+							w.NonTrivial()
+							p2.Do(w, pairArg{Limit: mode, A: mc.Bin(short), B: mc.Bin(long)})
+							p2.Do(w, pairArg{Limit: mode, A: mc.Bin(long), B: mc.Bin(short)})
+							p2.Do(w, pairArg{Limit: mode, A: mc.Bin(long), B: mc.Bin(long)})
+						}
+					}
+				}
+				w.Outcome("two-input limit")
 				reset()
 			})
 		})
